@@ -389,7 +389,8 @@ def _decide(prop, tier, seed, mod, results, problems, nshards, t0, replay):
 
     skipped = counters.get('skipped_workbooks_with_failing_cells', 0)
     if not replay and skipped > 20 and skipped > 0.1 * (skipped + counters.get('workbooks', 0) +
-                                                       counters.get('histories', 0) + counters.get('trims', 0)):
+                                                       counters.get('histories', 0) + counters.get('trims', 0) +
+                                                       counters.get('round_trips', 0)):
         # the generators only use implemented functions: on a healthy tree no generated cell fails.  If many
         # do, the workload no longer reaches the property and the run must not count as "held"
         inconclusive.append(f'{skipped} generated workbooks had cells that fail to evaluate and were skipped')
